@@ -289,7 +289,9 @@ DYN_TAGS = ['{field.memo}', '{source}', '{extract("REF:(\\\\d+)")}', '{label}', 
             # a tag that looks its value up in a supplemental source (only meaningful where the check supplies rows / orders)
             '{next((r.item for r in orders if r.qty > 0), "none")}', '{next((r.item for r in rows if r.amt == amount), "no-row")}',
             # numbers as tag values (1 is a number like any other: January, the 1st, a 1.00 payment)
-            '{month}', '{day}', '{year}', '{round(amount)}', '{len(description)}']
+            '{month}', '{day}', '{year}', '{round(amount)}', '{len(description)}',
+            # custom columns named like date parts
+            '{field.year}', '{field.day}']
 TRANSFORMS = [
     ('field.description', 'regex_replace(field.description, "^SQ \\\\*", "")'),
     ('field.description', 'strip_prefix(field.description, "UBER ")'),
